@@ -227,6 +227,10 @@ void run_C13(void) {
       for (int cfg = 0; cfg < 3; cfg++) {
         if (cfg == 2 && aop_big(op)) continue;
         const MODULE_TYPE mt = cfg == 2 ? NTT120 : FFT64;
+        {
+          static const uint64_t CORE[][3] = {{1, 1, 1}, {2, 2, 2}, {3, 1, 2}, {1, 3, 0}, {2, 1, 3}, {1, 2, 2}};
+          for (size_t c = 0; c < ARRAY_LEN(CORE); c++) vec_case(op, N, mt, cfg != 1, CORE[c][0], CORE[c][1], CORE[c][2], (unsigned)c % 4, (unsigned)(c + 1) % 4, (int)(c % 4), 50);
+        }
         for (uint64_t rs = 0; rs <= smax; rs++)
           for (uint64_t xs = 0; xs <= smax; xs++)
             for (uint64_t ys = 0; ys <= (aop_binary(op) ? smax : 0); ys++) {
